@@ -483,8 +483,57 @@ def r4(ctx):
         good = good and len(nxt) == 1 and vf.expr(fn, nxt[0].args[0]) == child
         ctx.check(good, "C02.R4", "trie_remove:pull-up@%d" % c.line, c.loc(),
                   "child's (prefix, len, data) pulled into the node, the node's old data block handed to the child, then the child is removed", key="C02.R4:trie_remove:pull-up")
-    # which child: the one with the shorter prefix (ties and missing children)
-    ctx.note("choice of the pulled-up child (shorter prefix first) belongs to the trie shape invariant and is not decided here")
+    # which child: the one with the shorter prefix (ties: either; a missing child: the other one).  trie_lookup_exact and
+    # trie_insert rely on 'a node's prefix is never longer than its children's', so pulling up the longer child loses records
+    ROOT = ("arg", 0)
+
+    def child_of(e):
+        if e[0] == "load" and e[1][0] == "fld" and e[1][1] == ROOT and vf.last_field(e[1]) in ("trie_node.lchild", "trie_node.rchild"):
+            return vf.last_field(e[1])[-6]
+        return None
+    ncell = 0
+    for has_l in (True, False):
+        for has_r in (True, False):
+            for rel in ("lt", "eq", "gt"):
+                if not (has_l and has_r) and rel != "eq":
+                    continue
+                if not has_l and not has_r:
+                    continue
+                ncell += 1
+                pulled = []
+
+                def values(pe):
+                    if pe[0] == "fld" and pe[1] == ROOT:
+                        f = vf.last_field(pe)
+                        if f == "trie_node.lchild":
+                            return ("nin", frozenset([0])) if has_l else 0
+                        if f == "trie_node.rchild":
+                            return ("nin", frozenset([0])) if has_r else 0
+                    return None
+
+                def oracle(inst, pred, a, b, E):
+                    for x, y, sw in ((a, b, False), (b, a, True)):
+                        if x[0] == "load" and y[0] == "load" and vf.last_field(x[1]) == "trie_node.len" and vf.last_field(y[1]) == "trie_node.len":
+                            cx, cy = child_of(x[1][1]), child_of(y[1][1])
+                            if cx == "l" and cy == "r":
+                                return _pred_under(pred, rel, sw)
+                    return None
+
+                def classify(inst, E, st):
+                    if inst.op == "call" and inst.callee == "prefix_is_same":
+                        return [([], {inst.ref: flow.av_in(1)})]
+                    if inst.op == "call" and inst.callee == "trie_is_leaf":
+                        return [([], {inst.ref: flow.av_in(0)})]
+                    if inst.op == "call" and inst.callee == "replace_node_data":
+                        pulled.append(child_of(E.path_expr(inst.args[1])))
+                    return None
+                es.count_effects(fn, pdb, classify, None, oracle=oracle, values=values, cap=96)
+                want = {"l"} if (has_l and (not has_r or rel == "lt")) else ({"r"} if (has_r and (not has_l or rel == "gt")) else {"l", "r"})
+                name = "left %s, right %s%s" % ("present" if has_l else "absent", "present" if has_r else "absent",
+                                                (", left.len %s right.len" % {"lt": "<", "eq": "=", "gt": ">"}[rel]) if has_l and has_r else "")
+                ctx.check(bool(pulled) and set(pulled) <= want, "C02.R4", "trie_remove:pulled-child[%s]" % name, "%s:%d" % (fn.relfile, fn.line),
+                          "pulled up: %s (allowed: %s)" % (sorted(set(map(str, pulled))), sorted(want)), key="C02.R4:trie_remove:choice:%s:%s:%s" % (has_l, has_r, rel))
+    ctx.floor("C02.R4", ncell, 5)
 
 
 def r5(ctx):
@@ -582,4 +631,8 @@ WITNESSES = [
     {"id": "C02.w12-src_remove-ipv4-only", "rule": "C02.R3", "file": TP,
      "old": "\tfor (unsigned int i = 0; i < 2; i++) {\n\t\tstruct trie_node **root = (i == 0 ? &(pfx_table->ipv4) : &(pfx_table->ipv6));\n\n\t\tpthread_rwlock_wrlock",
      "new": "\tfor (unsigned int i = 0; i < 1; i++) {\n\t\tstruct trie_node **root = (i == 0 ? &(pfx_table->ipv4) : &(pfx_table->ipv6));\n\n\t\tpthread_rwlock_wrlock"},
+    {"id": "C02.w13-remove-pulls-up-left-child-regardless-of-length", "rule": "C02.R4", "file": TRIE,
+     "old": "\t\tif (root->lchild && (!root->rchild || root->lchild->len < root->rchild->len)) {", "new": "\t\tif (root->lchild) {"},
+    {"id": "C02.w14-remove-pulls-up-longer-child", "rule": "C02.R4", "file": TRIE,
+     "old": "\t\tif (root->lchild && (!root->rchild || root->lchild->len < root->rchild->len)) {", "new": "\t\tif (root->lchild && (!root->rchild || root->lchild->len > root->rchild->len)) {"},
 ]
